@@ -1848,9 +1848,11 @@ class PyCdlib:
         for pvd in self.pvds:
             # The add_to_ptr_size() method returns True if the PVD needs
             # additional space in the PTR to store this directory.  We always
-            # add 4 additional extents for that (2 for LE, 2 for BE).
+            # add 4 additional extents for that (2 for LE, 2 for BE).  All
+            # copies of the PVD describe the same path tables, so the space is
+            # needed once.
             if pvd.add_to_ptr_size(path_table_record.PathTableRecord.record_length(ptr.len_di)):
-                num_bytes_to_add += 4 * self.logical_block_size
+                num_bytes_to_add = 4 * self.logical_block_size
 
         return num_bytes_to_add
 
@@ -1871,7 +1873,7 @@ class PyCdlib:
             # longer needs the extra extents in the PTR that stored this
             # directory.  We always remove 4 additional extents for that.
             if pvd.remove_from_ptr_size(path_table_record.PathTableRecord.record_length(ptr.len_di)):
-                num_bytes_to_remove += 4 * self.logical_block_size
+                num_bytes_to_remove = 4 * self.logical_block_size
 
         return num_bytes_to_remove
 
